@@ -47,17 +47,12 @@ def _flag_writers(tree_nodes):
 def d2_1(ctx):
     """The message of a request is assembled once: only RequestPacket arms/clears the _msg_setup guard."""
     base = ctx.model.cls(f"{PB}:RequestPacket")
-    bm = base.methods.get("build_message")
-    g = ctx.cfg(bm)
-    ext = [n for n in g.nodes if n.kind == "stmt" and ((isinstance(n.ast, ast.AugAssign) and attr_path(n.ast.target) == "self._msg") or any(isinstance(c, ast.Call) and attr_path(c.func) in ("self._setup_message", "self._msg.extend", "self._msg.append") for c in walk(n.ast)))]
-    tests = [t for t in g.nodes if t.kind == "test" and isinstance(t.ast, ast.UnaryOp) and isinstance(t.ast.op, ast.Not) and attr_path(t.ast.operand) == "self._msg_setup"]
-    good = bool(ext) and bool(tests) and all(g.branch_dominates(tests[0], True, e) for e in ext)
-    ctx.check(good, ckey(base.key + ".build_message", "guard"), bm, "_setup_message()/extension of the message list only under `if not self._msg_setup`", "build_message extends the message list outside the _msg_setup guard: building twice duplicates the message")
-    sm = base.methods.get("_setup_message")
-    arms = any(isinstance(n, ast.Assign) and attr_path(n.targets[0]) == "self._msg_setup" and isinstance(n.value, ast.Constant) and n.value.value is True for n in walk(sm)) if sm else False
-    init = base.methods.get("__init__")
-    clears = any(isinstance(n, ast.Assign) and attr_path(n.targets[0]) == "self._msg_setup" and isinstance(n.value, ast.Constant) and n.value.value is False for n in walk(init)) if init else False
-    ctx.check(arms and clears, ckey(base.key, "flag-lifecycle"), sm or base.node, "flag False at construction, True after the first assembly", "the _msg_setup flag is not armed by _setup_message / cleared by __init__")
+    # assembled once: every request class built twice gives the same frame (sequence, service, path, data and the data attached with
+    # add() appear once) - folded on witness packets (D2.11 `build-twice`, D18.14); an earlier form required the assembly to sit under
+    # `if not self._msg_setup:` inside build_message and alarmed when it moved into a helper with a guard clause
+    from .packets import _emit
+
+    _emit(ctx, {"build-twice", "raw-request"})
     # who may write the flag
     foreign = []
     for fi in ctx.model.all_functions():
@@ -75,18 +70,6 @@ def d2_1(ctx):
     # positive control: the detector must fire on a synthetic foreign write
     ctl = ast.parse("def f(request):\n    request.build_message()\n    request._msg_setup = False\n")
     ctx.check(len(_flag_writers(list(ast.walk(ctl)))) == 1, "control:_msg_setup-writer", base.node, "positive control: a synthetic foreign write is detected", "positive control failed: the who-may-write detector does not see a foreign write")
-    # every write request class arms the guard through super()._setup_message()
-    for cname in ("WriteTagRequestPacket", "WriteTagFragmentedRequestPacket", "ReadModifyWriteRequestPacket", "MultiServiceRequestPacket"):
-        c = ctx.model.cls(f"{PL}:{cname}")
-        chain = [k for k in c.mro() if "_setup_message" in k.methods]
-        ok = bool(chain) and chain[-1] is base
-        for k in chain[:-1]:
-            fn = k.methods["_setup_message"]
-            body = [s for s in fn.body if not (isinstance(s, ast.Expr) and isinstance(s.value, ast.Constant))]
-            first = body[0] if body else None
-            ok = ok and isinstance(first, ast.Expr) and isinstance(first.value, ast.Call) and isinstance(first.value.func, ast.Attribute) and first.value.func.attr == "_setup_message" and isinstance(first.value.func.value, ast.Call) and call_name(first.value.func.value) == "super"
-        ctx.check(ok, ckey(c.key, "arms-guard"), c.node, "the _setup_message chain reaches RequestPacket._setup_message (guard armed after the first assembly)", "a write request's _setup_message does not reach RequestPacket._setup_message: the assembly guard is never armed")
-
 
 @rule(P, "D2.2", "T-WITNESS", floor=5)
 def d2_2(ctx):
